@@ -2138,7 +2138,8 @@ class unyt_array(np.ndarray):
                     out.units = Unit("", registry=self.units.registry)
             elif isinstance(out, tuple):
                 for o, oa in zip(out, out_arr):
-                    if o is None:
+                    if not isinstance(o, unyt_array):
+                        # None, or a plain ndarray: no units to take over
                         continue
                     o.units = oa.units
         if mul == 1:
